@@ -820,7 +820,26 @@ impl Gen {
                 Step::new(&roles.engine_owner, Op::EngineConfig { owner: None, insurance_fund: None, fee_pool: None, initial: None, maintenance: None, partial: Some(d / 4 * rng.range128(0, 4)), liq_fee: None })
             }
             // ---- role transfers (C09 / C14 profiles only)
-            18 => Step::new(&roles.engine_owner, Op::EngineConfig { owner: Some(next_holder(&roles.engine_owner)), insurance_fund: None, fee_pool: None, initial: None, maintenance: None, partial: None, liq_fee: None }),
+            18 => {
+                // hand the engine over, alone or together with other fields of the same call (re-stating the current
+                // values keeps the call acceptable)
+                let e = r.obs.eng.clone().unwrap_or_default();
+                let (mut i, mut m, mut p, mut l, mut fp) = (None, None, None, None, None);
+                if rng.chance(1, 2) {
+                    match rng.below(5) {
+                        0 => i = Some(e.initial),
+                        1 => m = Some(e.maintenance),
+                        2 => p = Some(e.partial),
+                        3 => l = Some(e.liq_fee),
+                        _ => fp = Some(e.fee_pool.clone()),
+                    }
+                    if rng.chance(1, 3) {
+                        i = Some(e.initial);
+                        l = Some(e.liq_fee);
+                    }
+                }
+                Step::new(&roles.engine_owner, Op::EngineConfig { owner: Some(next_holder(&roles.engine_owner)), insurance_fund: None, fee_pool: fp, initial: i, maintenance: m, partial: p, liq_fee: l })
+            }
             19 => Step::new(&roles.pauser, Op::UpdatePauser { pauser: next_holder(&roles.pauser) }),
             20 => Step::new(&roles.vamm_owner[v], Op::VammOwner { vamm: v, owner: next_holder(&roles.vamm_owner[v]) }),
             21 => Step::new(&roles.if_owner, Op::IfOwner { owner: next_holder(&roles.if_owner) }),
@@ -866,6 +885,35 @@ impl Gen {
         let va = r.w.addrs.vamms[v].clone();
         if va.len() < 5 {
             return None;
+        }
+        if rng.chance(1, 4) {
+            // a sibling account: an address that differs from the victim's only by padding-like characters trades on the
+            // very same vAMM with its own money (a lossy storage-key derivation would make the two share a slot)
+            let sib = match rng.below(4) {
+                0 => format!("{}0", victim),
+                1 => format!("{}00", victim),
+                2 => format!("0{}", victim),
+                _ => format!("{}_", victim),
+            };
+            let d = r.w.d;
+            let margin = rng.range128(1_000, 2_000_000);
+            let side = if rng.chance(1, 2) { Side::Buy } else { Side::Sell };
+            let open = Op::Open { vamm: v, side, margin, leverage: d, limit: 0 };
+            let mut steps: Vec<Step> = vec![];
+            let mut st = Step::new(&sib, open.clone());
+            st.funds = native_funds(r, &sib, &open);
+            steps.push(st);
+            let dep = rng.range128(1, 5_000);
+            let mut st = Step::new(&sib, Op::Deposit { vamm: v, amount: dep });
+            st.funds = dep;
+            steps.push(st);
+            steps.push(Step::new(&sib, Op::Withdraw { vamm: v, amount: rng.range128(1, 5_000) }));
+            steps.push(Step::new(&sib, Op::Close { vamm: v, limit: 0 }));
+            for st in steps.into_iter().rev() {
+                self.plan.push(st);
+            }
+            self.plan.push(Step::new(&sib, Op::SetAllowance { amount: margin.saturating_mul(40) }));
+            return Some(Step::new(crate::world::TREASURY, Op::Transfer { to: sib, amount: margin.saturating_mul(20) }));
         }
         let k = rng.range(1, 2) as usize;
         let (head, tail) = va.split_at(va.len() - k);
